@@ -125,6 +125,7 @@ CHECKS = {
         runs=[
             dict(name="longown", run="^TestPropLongOwnership$", checks=(20, 200), shards=(1, 4), shrinktime="5s"),
             dict(name="configs", run="^TestPropSubscriptions$", checks=(2000, 12000), shards=(4, 16)),
+            dict(name="concresets", run="^TestPropConcurrentResets$", checks=(40, 400), shards=(2, 4), shrinktime="5s"),
             dict(name="regress", run="^(TestRegress.*|TestRealNATS|TestRealNATSListenAndServe)$", shards=(1, 1)),
         ],
     ),
